@@ -203,6 +203,7 @@ func (s *Runner) RunOnRange(ctx context.Context, startKey, endKey []byte) error 
 
 	// Iterate all regions and send each region's range as a task to the workers.
 	key := startKey
+	var abandoned error
 Loop:
 	for {
 		select {
@@ -246,6 +247,9 @@ Loop:
 		select {
 		case taskCh <- task:
 		case <-ctx.Done():
+			// The remaining sub-ranges are never dispatched. Remember why: if no worker reports an error (all of
+			// them may be idle when the context ends), the task must still not be reported as finished.
+			abandoned = ctx.Err()
 			break Loop
 		}
 		metrics.TiKVRangeTaskPushDuration.WithLabelValues(s.name).Observe(time.Since(pushTaskStartTime).Seconds())
@@ -272,6 +276,16 @@ Loop:
 				zap.Error(w.err))
 			return errors.WithStack(w.err)
 		}
+	}
+	if abandoned != nil {
+		logutil.Logger(ctx).Info("range task canceled",
+			zap.String("name", s.identifier),
+			zap.String("startKey", redact.Key(startKey)),
+			zap.String("endKey", redact.Key(endKey)),
+			zap.Duration("cost time", time.Since(startTime)),
+			zap.Int("completed regions", s.CompletedRegions()),
+			zap.Error(abandoned))
+		return errors.WithStack(abandoned)
 	}
 
 	logutil.Logger(ctx).Info("range task finished",
